@@ -46,7 +46,7 @@ def judge (c : Case) : Verdict :=
   let tags := c.tags ++ tagIf uniq "uniq" ++ tagIf c.t.rooted "rooted" ++ tagIf (c.t.kids.length == 1) "roottip" ++
     tagIf (c.t.kids.length > 3) "multiroot" ++ tagIf (!c.t.binary) "multif" ++
     tagIf (c.t.edges.any (·.len == 0)) "zerolen" ++ tagIf (c.t.edges.any (·.len == NIL)) "nolen" ++
-    tagIf c.small "small" ++ tagIf (!c.t.noSingle) "singles" ++ tagIf c.t.noSingle "hyp-nosingle" ++ tagIf (lensOK c.t) "hyp-lensok" ++ tagIf (supsOK c.t) "hyp-supsok" ++ tagIf (keysOK c.t) "hyp-keysok" ++ tagIf (allLens c.t) "hyp-alllens" ++ tagIf (branchesDistinct c.t) "hyp-branchesdistinct" ++ ["model-" ++ c.model.cls]
+    tagIf c.small "small" ++ tagIf (!c.t.noSingle) "singles" ++ tagIf c.t.noSingle "hyp-nosingle" ++ tagIf (lensOK c.t) "hyp-lensok" ++ tagIf (supsOK c.t) "hyp-supsok" ++ tagIf (keysOK c.t) "hyp-keysok" ++ tagIf (plainNames c.t) "hyp-plainnames" ++ tagIf (allLens c.t) "hyp-alllens" ++ tagIf (branchesDistinct c.t) "hyp-branchesdistinct" ++ ["model-" ++ c.model.cls]
   if !uniq then ⟨.pass, "skip-dupnames" :: tags, ""⟩ else
   if startsWith c.outcome "malformed" then ⟨.oracle, tags, "heap malformed after the operation: " ++ c.outcome⟩ else
   if startsWith c.outcome "panic" then
@@ -104,6 +104,25 @@ def presMsg (t u : T) : Option String :=
 def midClass (t u : T) : String :=
   if midpointStale t && sameTips t u then "(region of the repaired defect MidpointZeroLengthFarEnd, 23d32a8) " else ""
 
+/-- the oracle on a successful outgroup rooting (library call and every tree written by the command) -/
+def outgroupOkMsg (t : T) (rm strict : Bool) (S : List String) (u : T) : Option String :=
+  let side := isSide t S
+  let s := outTips t S
+  if strict && !side then some "non-monophyletic outgroup accepted in strict mode"
+  else if rm then
+    (if side && !(removedOK t s u) then some "outgroup removed: the rest is not the restriction of the tree"
+     else if !(removedAnyOK t s u) then
+       some "outgroup removed: what is left is not the tree restricted to the surviving tips (lengths, supports), or the removed tips are not one side of a split containing the outgroup"
+     else none)
+  else match presMsg t u with
+    | some m => some m
+    | none =>
+      if side then
+        (if branchesDistinct t then
+           (if cladeOK t S u then none else some "outgroup is not a root clade cut at half the branch")
+         else if cladeWeak t S u then none else some "outgroup is not a root clade on two equal branches")
+      else (if insideOK t S u then none else some "outgroup not inside one root clade")
+
 def handle (op : String) (f : List String) : Verdict :=
   match op, f with
   | "reroot", [dump, ps, outcome, after] =>
@@ -137,25 +156,36 @@ def handle (op : String) (f : List String) : Verdict :=
       let tags := ["op-outgroup", "kind-" ++ kind] ++ tagIf rm "remove" ++ tagIf strict "strict" ++ tagIf side "side" ++
         tagIf (s.length != S.length) "absent-names" ++ tagIf (rm && !strict && !side) "remove-nonside" ++
         tagIf (side && (sideLen t s == some 0)) "zero-cut" ++ tagIf (side && (sideLen t s == some NIL)) "nolen-cut"
-      let tags := tags ++ tagIf (outcome == "err" && !side) "nontrivial"
+      -- a refusal: `after` = "E" escaped message "|" state the tree was left in (dump, or "!" = malformed)
+      let refused := outcome == "err"
+      let (emsg, estate) := if refused then (match after.splitOn "|" with | [m, st] => (m, st) | _ => (after, "")) else ("", "")
+      let cause := refusalCause t rm strict S
+      let several := (emsg.splitOn "Several%20possible%20branches").length > 1
+      -- the recorded deviation (narrow): non-strict mode, the outgroup is not a side, no other cause of
+      -- refusal applies, the ancestor of the outgroup has several branches without outgroup tips, and the
+      -- code refuses with its "Several possible branches for root placement" error
+      let polytomy := refused && !strict && !side && cause.isNone && ancestorAmbiguous t S && several
+      let tags := tags ++ tagIf (!side && !s.isEmpty && ancestorAmbiguous t S) "ancestor-multifurcating" ++
+        tagIf (refused && cause == some "strict-nonside") "nontrivial" ++
+        (if refused then [if t.tipNames.length < 3 then "refused-small" else match cause with | some c => "refused-" ++ c | none => if polytomy then "refused-polytomy" else "refused-unexplained"] else []) ++
+        tagIf (refused && rm && (match T.undump estate with | some u => u.tipNames.length != t.tipNames.length | none => false)) "refused-after-deleting"
+      -- a refusal without removal must leave the tree itself as it was (it may have been unrooted / re-rooted)
+      let stateMsg : Option String :=
+        if !refused || rm || estate == "" then none
+        else if estate == "!" then some "after the refusal the tree is not well formed any more"
+        else match T.undump estate with
+          | some u => (presMsg t u).map ("after the refusal: " ++ ·)
+          | none => some "after the refusal: unreadable state"
       judge { t := t, model := rerootOutGroup rm strict S t, outcome := outcome, after := after, root := true,
               small := t.tipNames.length < 3, tags := tags,
-              okOracle := (fun u =>
-                if strict && !side then some "non-monophyletic outgroup accepted in strict mode"
-                else if rm then
-                  (if side && !(removedOK t s u) then some "outgroup removed: the rest is not the restriction of the tree"
-                   else if !(removedAnyOK t s u) then
-                     some "outgroup removed: what is left is not the tree restricted to the surviving tips (lengths, supports), or the removed tips are not one side of a split containing the outgroup"
-                   else none)
-                else match presMsg t u with
-                  | some m => some m
-                  | none =>
-                    if side then
-                      (if branchesDistinct t then
-                         (if cladeOK t S u then none else some "outgroup is not a root clade cut at half the branch")
-                       else if cladeWeak t S u then none else some "outgroup is not a root clade on two equal branches")
-                    else (if insideOK t S u then none else some "outgroup not inside one root clade")),
-              errOracle := none }
+              okOracle := (fun u => outgroupOkMsg t rm strict S u),
+              errOracle := (match cause with
+                | some _ => stateMsg
+                | none =>
+                  if polytomy then
+                    some ("class=OutgroupNonStrictMultifurcationRefused non-strict outgroup rooting refused (\"Several possible branches for root placement\"): the ancestor of the outgroup is a multifurcation, the statement requires the outgroup to end up inside one root clade")
+                  else some ("outgroup rooting refused (" ++ emsg ++ ") although the statement requires it to succeed: the outgroup " ++
+                    (if side then "is one side of a split with at least two tips on the other side" else "is not a side, non-strict mode"))) }
     | _, _, _, _ => bad "C05.outgroup fields"
   | "midpoint", [dump, outcome, after] =>
     match T.undump dump with
@@ -231,6 +261,9 @@ def handle (op : String) (f : List String) : Verdict :=
         (if files == "-" then some none else (parseStrList (dropFirst files)).map some), parseNatList ds,
         (splitTerm "|" outs).mapM T.undump with
     | some k, some trees, some rm, some strict, some args, some file, some draws, some us =>
+      -- "err-several" = exit status ≠ 0 with the message "Several possible branches for root placement"
+      let several := cls == "err-several"
+      let cls := if several then "err" else cls
       let (ms, mcls) := cliRun k rm strict file args draws trees
       let tags := ["cli", "cli-" ++ kind] ++ tagIf (trees.length > 1) "cli-multi" ++ tagIf (!us.isEmpty) "nontrivial" ++
         tagIf (trees.all (·.uniqueTips)) "uniq" ++ ["cli-" ++ cls]
@@ -241,8 +274,29 @@ def handle (op : String) (f : List String) : Verdict :=
       let bad := (List.zip trees us).filter fun p => !(k == .outgroup && rm) && p.1.tipNames.length ≥ 3 && !(preserved p.1 p.2)
       if !bad.isEmpty then ⟨.oracle, tags, "a written tree is not the input tree"⟩ else
       let tips := match cliTips file args with | .ok l => l | _ => []
-      if k == .outgroup && strict && (List.zip trees us).any (fun p => p.1.tipNames.length ≥ 3 && !(isSide p.1 tips)) then
-        ⟨.oracle, tags, "non-monophyletic outgroup accepted in strict mode"⟩ else
+      -- oracle: the clauses of the property on every tree written (clade / inside / removed / halfway)
+      let msgs := (List.zip trees us).filterMap fun p =>
+        if p.1.tipNames.length < 3 then none
+        else if k == .outgroup then outgroupOkMsg p.1 rm strict tips p.2
+        else if k == .midpoint then (if halfwayOK p.1 p.2 then none else some "root not halfway along a longest path")
+        else none
+      if let m :: _ := msgs then ⟨.oracle, tags, "a written tree: " ++ m⟩ else
+      -- oracle: the command may stop on a tree only for a cause of refusal the statement allows
+      let stopped : Option T := if k == .outgroup && cls == "err" && (match cliTips file args with | .ok _ => true | _ => false) then trees[us.length]? else none
+      let stopMsg : Option String := match stopped with
+        | some t =>
+          if t.tipNames.length < 3 then none else
+          (match refusalCause t rm strict tips with
+           | some _ => none
+           | none =>
+             if !strict && !(isSide t tips) && ancestorAmbiguous t tips && several then
+               some "class=OutgroupNonStrictMultifurcationRefused the command stops on a tree where the ancestor of the (non-monophyletic) outgroup is a multifurcation, non-strict mode"
+             else some "the command refuses a tree although the statement requires the rooting to succeed")
+        | none => none
+      let tags := tags ++ (match stopped with
+        | some t => if t.tipNames.length < 3 then [] else [match refusalCause t rm strict tips with | some c => "refused-" ++ c | none => if !strict && !(isSide t tips) && ancestorAmbiguous t tips && several then "refused-polytomy" else "refused-unexplained"]
+        | none => [])
+      if let some m := stopMsg then ⟨.oracle, tags, m⟩ else
       if mcls != cls then ⟨.tie, tags, "command ends with " ++ cls ++ ", model says " ++ mcls⟩ else
       if ms.length != us.length then ⟨.tie, tags, "command wrote " ++ toString us.length ++ " trees, model " ++ toString ms.length⟩ else
       let root := k != .midpoint
